@@ -915,11 +915,32 @@ func ruleWhoWritesFiles(c *Ctx, rule string) {
 				}
 			}
 		}
-		if fn == rf0 {
+		isClosureOfRF := false
+		for p := fn.Parent(); p != nil; p = p.Parent() {
+			if p == rf0 {
+				isClosureOfRF = true
+			}
+		}
+		if fn == rf0 || isClosureOfRF {
 			for _, l := range condsOf(NewPostDom(fn).ControlDeps(), in.Block()) {
-				if prm, ok := l.Cond.(*ssa.Parameter); ok && l.Pol {
-					if b, ok := prm.Type().Underlying().(*types.Basic); ok && b.Kind() == types.Bool {
+				if !l.Pol {
+					continue
+				}
+				v := l.Cond
+				if u, ok := v.(*ssa.UnOp); ok && u.Op == token.MUL {
+					v = u.X
+				}
+				switch x := v.(type) {
+				case *ssa.Parameter:
+					if b, ok := x.Type().Underlying().(*types.Basic); ok && b.Kind() == types.Bool && x.Parent() == rf0 {
 						return true
+					}
+				case *ssa.FreeVar:
+					// a closure of RunFiles reads the flag it captured
+					for _, p := range rf0.Params {
+						if b, ok := p.Type().Underlying().(*types.Basic); ok && b.Kind() == types.Bool && p.Name() == x.Name() {
+							return true
+						}
 					}
 				}
 			}
